@@ -170,6 +170,13 @@ func TestC20(t *testing.T) {
 		// (the race-enabled shard only runs the concurrent part, with more programs)
 		t.Run("histories", testC20Histories)
 	}
+	if os.Getenv("VERIF_RACE") == "" {
+		// the document API (Set / SetAll / Get / Has / Copy / AsMap / Fields / NewDocumentOf / Unmarshal /
+		// Encode) on reflection-built Go values: the C18 case, here for its panics
+		t.Run("document-api", func(t *testing.T) {
+			check(t, "C20", cases(6000, 150000), 0, propC18For("C20", collector("C20", ruleC20)))
+		})
+	}
 	t.Run("concurrent", func(t *testing.T) {
 		col := collector("C20", ruleC20)
 		n := cases(60, 1500)
